@@ -185,7 +185,9 @@ impl PointG1 {
         pre_validate_point(val, 3)?;
         let mut point = ECP::from_hex(val.to_string());
         if is_valid_ecp(&point) {
-            if point.is_infinity() {
+            // amcl's `is_infinity` only reduces a coordinate as far as its excess counter says:
+            // the residue p with counter 1 is zero, but would not be recognised as such
+            if is_zero_mod_p(point.getpx().redc()) && is_zero_mod_p(point.getpz().redc()) {
                 // normalise the identity: an encoding such as (0, 0, 0) would otherwise
                 // compare equal to every point (amcl's `equals` cross-multiplies by z)
                 point.inf();
@@ -357,8 +359,13 @@ impl PointG2 {
         pre_validate_point(val, 6)?;
         let mut point = ECP2::from_hex(val.to_string());
         if is_valid_ecp2(&point) {
-            if point.is_infinity() {
-                // normalise the identity, see PointG1::from_string_inf
+            // see PointG1::from_string_inf
+            let (mut x, mut z) = (point.getpx(), point.getpz());
+            if is_zero_mod_p(x.geta())
+                && is_zero_mod_p(x.getb())
+                && is_zero_mod_p(z.geta())
+                && is_zero_mod_p(z.getb())
+            {
                 point.inf();
             }
             Ok(PointG2 { point })
@@ -858,6 +865,12 @@ const fn validate_hex(bytes: &[u8]) -> Option<usize> {
         i += 1;
     }
     Some((bytes.len() + 1) / 2)
+}
+
+/// zero as a field element, whichever multiple of the modulus represents it
+fn is_zero_mod_p(mut b: BIG) -> bool {
+    b.rmod(&BIG::new_ints(&amcl::bn254::rom::MODULUS));
+    b.iszilch()
 }
 
 fn is_valid_ecp(point: &ECP) -> bool {
